@@ -315,6 +315,53 @@ def withFileTruthy (base : S) : Option S → S
   | some (c :: f) => pjoin base (c :: f)
   | _ => base
 
+/-! ## The order of the loop instances (`looped_reference_to_paths`)
+
+A placeholder's `represents` is a list made from a SET of instance ids `stage<s>.<iteration>#<name>`: its order carries
+no meaning.  `:loopref` / `:loopoutput` list the instances sorted on `int(<iteration>)`. -/
+
+/-- `int(c.split('.', 1)[1].split('#', 1)[0])`.  Python raises for an id of another shape; the model answers 0 (never
+reached: `represents` holds instance ids only). -/
+def iterOfId (c : S) : Nat :=
+  match splitFirst '.' c with
+  | none => 0
+  | some (_, rest) =>
+    match splitFirst '#' rest with
+    | none => (digitsToNat? rest).getD 0
+    | some (it, _) => (digitsToNat? it).getD 0
+
+/-- insertion into a list sorted on the iteration number, before the first element that is not smaller (stable) -/
+def insertInst {α : Type} (a : S × α) : List (S × α) → List (S × α)
+  | [] => [a]
+  | b :: l => if iterOfId b.1 < iterOfId a.1 then b :: insertInst a l else a :: b :: l
+
+/-- `sorted(represents, key=lambda c: int(c.split('.', 1)[1].split('#', 1)[0]))` on instances `(id, payload)`
+(Python's sort is stable; so is this insertion sort from the right) -/
+def orderInstances {α : Type} : List (S × α) → List (S × α)
+  | [] => []
+  | a :: l => insertInst a (orderInstances l)
+
+/-- the id of loop instance `iter` of component `name` in stage `stage`: `'stage%d.%d#%s'` -/
+def instId (stage iter : Nat) (name : S) : S := stageText stage ++ (natToDigits iter ++ '#' :: name)
+
+/-- `:loopref` of a placeholder whose instances are `insts` = (id, working directory), in ANY order -/
+def loopRefSource (insts : List (S × S)) (file : Option S) : Source :=
+  .paths ((orderInstances insts).map fun x => loopRefPath x.2 file)
+
+/-- `:loopoutput` of a placeholder whose instances are `insts` = (id, contents of the referenced file), in ANY order -/
+def loopOutputSource (insts : List (S × Option S)) : Source :=
+  .files ((orderInstances insts).map fun x => x.2)
+
+/-- the ids sorted AS STRINGS (`sorted(represents)` without the key) — not what the code does; kept to state in
+`Witness.C10` why the key matters from the 11th instance on -/
+def insertInstLex {α : Type} (a : S × α) : List (S × α) → List (S × α)
+  | [] => [a]
+  | b :: l => if lexLt b.1 a.1 then b :: insertInstLex a l else a :: b :: l
+
+def orderInstancesLex {α : Type} : List (S × α) → List (S × α)
+  | [] => []
+  | a :: l => insertInstLex a (orderInstancesLex l)
+
 /-- a declared reference together with what its value is computed from -/
 structure Decl where
   abs : S
